@@ -195,7 +195,7 @@ Section Dec.
     | ACons n _ p r =>
         if String.eqb n target then
           match p with
-          | PNone => ret None
+          | PNone => ret (Some (VStruct_ (TyN uname) []))
           | PTy t =>
               v <- dec_ty t (pchild pa n) None false ;;
               ret (Some (VStruct_ (TyN uname) [(n, v)]))
